@@ -87,6 +87,12 @@ pub fn run(thorough: bool) -> (FilterStats, Vec<(String, Vec<Finding>)>) {
                         let provider = RawProvider(raw);
                         let mut offloaded = bloom.clone();
                         offloaded.offload_from_memory();
+                        // the path a reopened storage takes: deserialize, then off-load
+                        let restored_offloaded = restored.as_ref().ok().map(|r| {
+                            let mut r = r.clone();
+                            r.offload_from_memory();
+                            r
+                        });
                         for k in alphabet.iter().chain(probes.iter()) {
                             stats.probes += 1;
                             let want = mem(&bloom, k);
@@ -106,6 +112,15 @@ pub fn run(thorough: bool) -> (FilterStats, Vec<(String, Vec<Finding>)>) {
                                     format!("bits {bits} hashers {hashers} subset {subset:08b}: key {k:?} in memory maybe={want}, probed from the serialized bytes {r:?}"),
                                 )),
                                 Err(e) => fs.push(finding("bloom.file_probe_error", format!("bits {bits} hashers {hashers}: {e:#}"))),
+                            }
+                            if let Some(ro) = &restored_offloaded {
+                                match futures::executor::block_on(ro.contains_in_file(&provider, k)) {
+                                    Ok(r) if maybe_ref(&r) == want => {}
+                                    other => fs.push(finding(
+                                        "bloom.file_probe_after_reload",
+                                        format!("bits {bits} hashers {hashers} subset {subset:08b}: key {k:?} in memory maybe={want}, deserialized + off-loaded filter probed from the bytes: {other:?}"),
+                                    )),
+                                }
                             }
                             // the FilterTrait entry point used by blobs (falls back to the provider when off-loaded)
                             let via_trait = futures::executor::block_on(<Bloom as FilterTrait<ArrayKey<4>>>::contains(&offloaded, &provider, k));
